@@ -507,6 +507,8 @@ func runC13(r *Run, replay *Case) {
 			c13TypeAlternation(r)
 		case "nameclash":
 			c13NameClash(r)
+		case "missingstep":
+			c13MissingStep(r)
 		case "conv":
 			d := map[string]any{}
 			for _, a := range c13Args {
@@ -558,6 +560,7 @@ func runC13(r *Run, replay *Case) {
 	c13ConvCases(r)
 	c13TypeAlternation(r)
 	c13NameClash(r)
+	c13MissingStep(r)
 	// built-in-only pipe chains: real engine vs the Lean pipe interpreter (parsePipeExpr / evalPipe / callBuiltin), byte for byte
 	heads := []string{"s", "t", "e", "n", "lst", "obj.k", "st.Y", "missing", "'lit'", "upper(s)", "len(lst)", "digits"}
 	segs := []string{"upper", "lower", "trim", "len", "string", "escape", "default('d')", "default(t)", "default(missing)", "default('')", "default(\"s\")", "default('t')", "default(\"a, b\")", "default(\"it's, x\")", "default('5\", w') | upper", "nosuch", "upper(1)", "default", "upper()"}
@@ -637,6 +640,56 @@ func c13NameClash(r *Run) {
 				c.Oracle = &Verdict{OK: false, Class: cls, Detail: fmt.Sprintf("%s: %q, the variable holds %q", tpl, res.Out, want)}
 			}
 			r.Add(c)
+		}
+	}
+}
+
+// a path whose step is missing from its container has no value in EVERY position — also when a variable of that name exists and holds a
+// key or index of the container (`prod.label` with label = "name"; `row.i` inside `(i, row) in rows`): a step is a literal, and the
+// positions served by the path walker and by the expression evaluator agree
+func c13MissingStep(r *Run) {
+	env := map[string]any{"prod": map[string]any{"name": "Lamp", "price": 3}, "label": "name", "rows": []any{map[string]any{"n": "a0"}, map[string]any{"n": "b1"}}, "i": 0, "k": "price", "n": "n",
+		"st": S1{Name: "sn", Count: 2}, "field": "Name"}
+	for _, e := range []string{"prod.label", "prod.k", "rows.i", "rows.i.n", "st.field", "prod.label.x", "rows[0].label"} {
+		for _, pos := range []string{"text", "pipe-head", "attr", "if", "elseif", "show", "class", "loop-text", "loop-if"} { // (a filter ARGUMENT that does not resolve is its own text: not a position of this rule)
+			var tpl string
+			switch pos {
+			case "text":
+				tpl = "<p>[[{{ " + e + " }}]]</p>"
+			case "pipe-head":
+				tpl = `<p>[[{{ ` + e + ` | default("") }}]]</p>`
+			case "pipe-arg":
+				tpl = `<p>[[{{ "" | default(` + e + `) }}]]</p>`
+			case "attr":
+				tpl = `<p :data-v="` + e + `">[[]]</p>`
+			case "if":
+				tpl = `<p v-if="` + e + `">[[T]]</p><p v-else>[[]]</p>`
+			case "elseif":
+				tpl = `<p v-if="nope">n</p><p v-else-if="` + e + `">[[T]]</p><p v-else>[[]]</p>`
+			case "show":
+				tpl = `<p v-show="` + e + `">[[]]</p>`
+			case "class":
+				tpl = `<p :class="{on: ` + e + `}">[[]]</p>`
+			case "loop-text":
+				tpl = `<ul><li v-for="(i, row) in rows">[[{{ row.i }}{{ row.label }}]]</li></ul>`
+			case "loop-if":
+				tpl = `<ul><li v-for="(i, row) in rows"><b v-if="row.i">[[T]]</b><b v-else>[[]]</b></li></ul>`
+			}
+			res := renderPage(map[string]string{"p.vuego": tpl}, "p.vuego", env)
+			c := &Case{Name: "missing step " + e + " in " + pos, Input: map[string]any{"stream": "missingstep", "expr": e, "pos": pos, "tpl": tpl}, Impl: res.canon(), Oracle: &Verdict{OK: true}, Key: "missingstep|" + e + "|" + pos, Tags: []string{"stream:missingstep", "pos:" + pos}}
+			cls := "missing-step-has-a-value:" + pos
+			switch {
+			case res.Err != "" || res.Panic != "" || res.Timeout:
+				// expr-lang may reject a path through a string or an int (`prod.label.x`): an error is not a value
+			case strings.Contains(res.Out, "[[T]]") || !strings.Contains(res.Out, "[[]]"):
+				c.Oracle = &Verdict{OK: false, Class: cls, Detail: fmt.Sprintf("%s renders %q: the path %s has no value", tpl, res.Out, e)}
+			case (pos == "attr" && strings.Contains(res.Out, "data-v")) || (pos == "class" && strings.Contains(res.Out, `class="on"`)) || (pos == "show" && !strings.Contains(res.Out, "display:none")):
+				c.Oracle = &Verdict{OK: false, Class: cls, Detail: fmt.Sprintf("%s renders %q: the path %s has no value", tpl, res.Out, e)}
+			}
+			r.Add(c)
+			if pos != "pipe-arg" {
+				pendingPages = append(pendingPages, pageCase("missingstep:"+pos, map[string]string{"p.vuego": tpl}, nil, "p.vuego", env, "pos:"+pos))
+			}
 		}
 	}
 }
